@@ -454,7 +454,8 @@ static std::string scratch_base() {
 }
 
 // ------------------------------------------------------------------ boot (mirror of src/main.c) and run
-int sim_main_run(const Plan &plan) {
+static int g_root_pid = 0;   // pid that names the scratch directory (the run child; lives are its children)
+int sim_main_run(const Plan &plan, int life, bool last_life, long gap_s) {
   S = Sim();
   S.plan = plan;
   S.instr_cost_ns = plan.optl("instr_cost_ns", 100);
@@ -474,13 +475,20 @@ int sim_main_run(const Plan &plan) {
   alarm((unsigned)plan.optl("wall_s", 10));
 
   char dirbuf[256];
-  snprintf(dirbuf, sizeof dirbuf, "%s/nsim-%08d", scratch_base().c_str(), (int)getpid());
+  snprintf(dirbuf, sizeof dirbuf, "%s/nsim-%08d", scratch_base().c_str(), g_root_pid ? g_root_pid : (int)getpid());
   S.root = dirbuf;
-  rm_tree(S.root);
-  mkdir(S.root.c_str(), 0755);
   std::string lib = S.root + "/lib";
-  copy_tree(g_mudlib_src, lib);
-  for (auto &f : plan.files) write_file_raw(lib + "/" + f.first, f.second);
+  if (life == 0) {
+    rm_tree(S.root);
+    mkdir(S.root.c_str(), 0755);
+    copy_tree(g_mudlib_src, lib);
+    for (auto &f : plan.files) write_file_raw(lib + "/" + f.first, f.second);
+  } else {
+    // a later life of the same world: only files survive; the clock goes on after the restart gap
+    std::string c = read_file_raw(S.root + "/.clock");
+    S.base_time = (time_t)atoll(c.c_str()) + gap_s;
+    ev("life %d base_time=%ld", life, (long)S.base_time);
+  }
   // the driver only ever sees relative paths, so the scratch location cannot influence a run
   if (chdir(S.root.c_str())) { ev("boot_fail chdir_root"); ev_flush(); return 3; }
   std::string conf = "MudlibDir lib\nMasterFile /master.c\nSimulEfunFile /simul_efun.c\n";
@@ -499,11 +507,13 @@ int sim_main_run(const Plan &plan) {
   if (-1 == chdir(CONFIG_STR(__MUD_LIB_DIR__))) { ev("boot_fail chdir"); ev_flush(); return 3; }
   init_strings(CONFIG_INT(__SHARED_STRING_HASH_TABLE_SIZE__), CONFIG_INT(__MAX_STRING_LENGTH__));
   init_lpc_compiler(CONFIG_INT(__MAX_LOCAL_VARIABLES__), CONFIG_STR(__INCLUDE_DIRS__));
-  setup_simulate();
-  verif_instr_hook = instr_hook;
+  // the file layer is live before setup_simulate(): init_binaries() stats the simul_efun file
   files_reset();
+  if (life > 0) files_load_state(S.root + "/.mtimes");
   S.fs_log = plan.optl("fs_log", 0) != 0;
   S.fs_active = true;
+  setup_simulate();
+  verif_instr_hook = instr_hook;
 
   eval_cost = CONFIG_INT(__MAX_EVAL_COST__);
   {
@@ -539,6 +549,13 @@ int sim_main_run(const Plan &plan) {
   std::string st;
   for (auto &kv : S.stats) { st += " " + kv.first + "=" + std::to_string(kv.second); }
   ev("STATS%s", st.c_str());
+  if (!last_life) {
+    files_save_state(S.root + "/.mtimes");
+    write_file_raw(S.root + "/.clock", std::to_string((long long)(S.base_time + S.vus / 1000000 + 1)));
+    ev("life_end %d", life);
+    ev_flush();
+    return 0;
+  }
   ev("END ok");
   ev_flush();
   rm_tree(S.root);
@@ -576,8 +593,27 @@ static void run_child(int result_fd) {
     Plan plan; std::string err;
     parse_plan_buf(plan, err);
     if (!err.empty()) { std::string m = "X planerror " + pct_enc(err) + "\n"; wr(result_fd, m.data(), m.size()); _exit(0); }
-    int rc = sim_main_run(plan);
-    _exit(rc);
+    // lives: the steps between "restart" steps run in successive driver processes over the same scratch directory
+    std::vector<std::vector<Step>> segs(1); std::vector<long> gaps;
+    for (auto &st : plan.steps) {
+      if (st.op == "restart") { gaps.push_back(st.a.size() ? atol(st.a[0].c_str()) : 1); segs.emplace_back(); }
+      else segs.back().push_back(st);
+    }
+    if (segs.size() == 1) { int rc = sim_main_run(plan); _exit(rc); }
+    g_root_pid = (int)getpid();
+    for (size_t li = 0; li < segs.size(); li++) {
+      pid_t lp = fork();
+      if (lp == 0) {
+        Plan pl = plan; pl.steps = segs[li];
+        int rc = sim_main_run(pl, (int)li, li + 1 == segs.size(), li ? gaps[li - 1] : 0);
+        _exit(rc);
+      }
+      int st2 = 0;
+      while (waitpid(lp, &st2, 0) < 0 && errno == EINTR) {}
+      if (WIFSIGNALED(st2)) { signal(WTERMSIG(st2), SIG_DFL); raise(WTERMSIG(st2)); _exit(99); }
+      if (WEXITSTATUS(st2) != 0) _exit(WEXITSTATUS(st2));
+    }
+    _exit(0);
   }
   int status = 0;
   while (waitpid(pid, &status, 0) < 0 && errno == EINTR) {}
